@@ -28,10 +28,12 @@ class PoolPlan:
     seed: int = 0
     die_tasks: tuple[int, ...] = ()  # task indices (within each map call) whose worker dies before running
     die_after: tuple[int, ...] = ()  # task indices whose worker dies AFTER running (result lost)
+    die_maps: tuple[int, ...] = ()  # the deaths above happen only in these map calls (empty = in every one)
     record: list = field(default_factory=list)  # one entry per map call
     virtual_time: float = 0.0
     maps: int = 0
     tasks: int = 0
+    deaths: int = 0
     # lockstep back-end (simkit/lockstep.py): tasks genuinely in flight together
     lockstep: bool = False
     timeout_tasks: tuple[int, ...] = ()  # tasks that exceed the map's timeout (only if the caller passed one)
@@ -185,8 +187,10 @@ class SimPool:
             if isinstance(p, BaseException):
                 outcomes[task] = ("exc", p)
                 continue
-            if task in plan.die_tasks:
+            dying = not plan.die_maps or plan.maps in plan.die_maps
+            if task in plan.die_tasks and dying:
                 outcomes[task] = ("exc", _process_expired())
+                plan.deaths += 1
                 continue
             try:
                 fn, args = pickle.loads(p)  # noqa: S301
@@ -198,8 +202,9 @@ class SimPool:
                 if type(e).__name__ != "SimWorkerDeath":
                     raise
                 out = ("exc", _process_expired())  # only the worker running this task died
-            if task in plan.die_after:
+            if task in plan.die_after and dying:
                 out = ("exc", _process_expired())
+                plan.deaths += 1
             outcomes[task] = out
         plan.record.append({"n": n, "W": self.workers, "completion_order": order, "worker_of": worker_of})
         plan.maps += 1
